@@ -12,11 +12,12 @@ HEADER_GEN = ("From Qib Require Import Fermi.FermiCheck.\nFrom Coq Require Impor
               "Definition half : QI := (Qmake 1%Z 2%positive, Qmake 0%Z 1%positive).\n"
               "Definition bad_cases := fbad_cases (gen_jw_params half) (gen_par_params half) gen_jw_tol gen_par_tol.\n")
 # used only when the translator refuses the source: the hand copy of the tables, so that the
-# correspondence run can still localise the difference
+# correspondence run can still localise the difference (keep-dimension flag as in /repo since the fix
+# commits 1962abb / d91f9c2: an all-zero operator keeps a zero-weight identity string)
 HEADER_HAND = ("From Qib Require Import Fermi.FermiCheck.\nFrom Coq Require Import QArith.\n"
                "Definition half : QI := (Qmake 1%Z 2%positive, Qmake 0%Z 1%positive).\n"
-               "Definition pj : encparams QI := {| ep_tab := jw_tab; ep_weight := fun k c => smul (spow half k) c; ep_keepdim := false |}.\n"
-               "Definition pp : encparams QI := {| ep_tab := par_tab; ep_weight := fun k c => smul (spow half k) c; ep_keepdim := false |}.\n"
+               "Definition pj : encparams QI := {| ep_tab := jw_tab; ep_weight := fun k c => smul (spow half k) c; ep_keepdim := true |}.\n"
+               "Definition pp : encparams QI := {| ep_tab := par_tab; ep_weight := fun k c => smul (spow half k) c; ep_keepdim := true |}.\n"
                "Definition tol : Q := Qmake 6338253001141147%Z 633825300114114700748351602688%positive.\n"
                "Definition bad_cases := fbad_cases pj pp tol tol.\n")
 
@@ -331,6 +332,374 @@ def oracle_parity_ladders(ctx, W, L):
     return lad
 
 
+# ---------------------------------------------------------------------------------------------
+# LONG lattices (L = 31 .. 130): dense matrices are out of reach, the property is checked at the level of the
+# Pauli STRINGS.  Everything below is numpy-free and independent of the library's PauliString arithmetic:
+# an operator on L sites is a dictionary  {letters : (re, im)}  with letters a tuple over 0 = I, 1 = X, 2 = Y, 3 = Z
+# (site 0 first) and exact Gaussian-rational coefficients; products are taken LETTER BY LETTER with the single-site
+# table  X Y = i Z, Y Z = i X, Z X = i Y.  Reference ladder operators (site 0 = leftmost tensor factor, as in
+# FieldOperator.as_matrix / checks.C10.ref_lad):
+#   Jordan-Wigner   a_i = I^(i) (X + iY)/2 Z^(L-i-1)
+#   parity          a_i = (Z_{i-1} X_i + i Y_i)/2 X_{i+1} ... X_{L-1}      (qubit j stores the parity of sites 0..j)
+# and, for the parity encoder, the statement of the property itself on the encoder's own ladder operators
+# (CAR, vacuum, occupation number, sum of ordered products).
+LET_MUL = {}
+for _a in range(4):
+    LET_MUL[(0, _a)] = (_a, 0)
+    LET_MUL[(_a, 0)] = (_a, 0)
+    LET_MUL[(_a, _a)] = (0, 0)
+for _a, _b, _c in ((1, 2, 3), (2, 3, 1), (3, 1, 2)):
+    LET_MUL[(_a, _b)] = (_c, 1)          # sigma_a sigma_b = i^k sigma_c
+    LET_MUL[(_b, _a)] = (_c, 3)
+IPOW = [(1, 0), (0, 1), (-1, 0), (0, -1)]          # i^k as (re, im)
+LETTER_OF_ZX = {(0, 0): 0, (0, 1): 1, (1, 1): 2, (1, 0): 3}
+LONG_SIZES = (33, 54, 63, 64, 65, 70, 96, 130)
+F0, F1, FH = Fraction(0), Fraction(1), Fraction(1, 2)
+
+
+def gmul(a, b):
+    return (a[0] * b[0] - a[1] * b[1], a[0] * b[1] + a[1] * b[0])
+
+
+def gfrac(v):
+    v = complex(v)
+    return (Fraction(v.real), Fraction(v.imag))
+
+
+def lop_add_into(A, B, c=(F1, F0)):
+    for k, v in B.items():
+        w = gmul(v, c)
+        o = A.get(k)
+        A[k] = w if o is None else (o[0] + w[0], o[1] + w[1])
+    return A
+
+
+def lop_clean(A):
+    return {k: v for k, v in A.items() if v[0] or v[1]}
+
+
+def lop_mul(A, B):
+    out = {}
+    for ka, va in A.items():
+        for kb, vb in B.items():
+            ph = 0
+            letters = []
+            for a, b in zip(ka, kb):
+                c, k = LET_MUL[(a, b)]
+                letters.append(c)
+                ph += k
+            w = gmul(gmul(va, vb), IPOW[ph % 4])
+            key = tuple(letters)
+            o = out.get(key)
+            out[key] = w if o is None else (o[0] + w[0], o[1] + w[1])
+    return out
+
+
+def lop_adjoint(A):
+    return {k: (v[0], -v[1]) for k, v in A.items()}
+
+
+def lop_on_vacuum(A):
+    """amplitudes of A |0...0> by basis state (set of flipped sites): X|0> = |1>, Y|0> = i|1>, Z|0> = |0>"""
+    amp = {}
+    for k, v in A.items():
+        ny = sum(1 for a in k if a == 2)
+        st = tuple(1 if a in (1, 2) else 0 for a in k)
+        w = gmul(v, IPOW[ny % 4])
+        o = amp.get(st)
+        amp[st] = w if o is None else (o[0] + w[0], o[1] + w[1])
+    return lop_clean(amp)
+
+
+def gstr(v):
+    re, im = base.fstr(v[0]), base.fstr(v[1])
+    return re + ("" if im.startswith("-") else "+") + im + "j"
+
+
+def letters_str(k):
+    """compact, readable form of a long string: only the non-identity letters"""
+    return " ".join("%s%d" % ("IXYZ"[a], i) for i, a in enumerate(k) if a) or "identity"
+
+
+def ref_ladder_letters(L, i, create, parity):
+    if parity:
+        P = [0] * i + [1] * (L - i)
+        Q = [0] * i + [2] + [1] * (L - i - 1)
+        if i > 0:
+            P[i - 1] = 3
+    else:
+        P = [0] * i + [1] + [3] * (L - i - 1)
+        Q = [0] * i + [2] + [3] * (L - i - 1)
+    return {tuple(P): (FH, F0), tuple(Q): (F0, -FH if create else FH)}
+
+
+def ref_number_letters(L, i, parity):
+    zz = [0] * L
+    zz[i] = 3
+    if parity and i > 0:
+        zz[i - 1] = 3
+    return {tuple([0] * L): (FH, F0), tuple(zz): (-FH, F0)}
+
+
+def enc_letters(enc, L):
+    """(operator as letter dictionary, list of structural complaints) of an encoder result"""
+    out, bad, seen = {}, [], set()
+    for w in enc.pstrings:
+        ps = w.paulis
+        z, x, q = [int(v) for v in ps.z], [int(v) for v in ps.x], int(ps.q)
+        if len(z) != L or len(x) != L:
+            bad.append("string of length %d/%d on %d sites" % (len(z), len(x), L))
+            continue
+        if any(v not in (0, 1) for v in z + x) or q not in (0, 1, 2, 3):
+            bad.append("string with entries outside {0,1} / q outside 0..3")
+            continue
+        key = tuple(LETTER_OF_ZX[(a, b)] for a, b in zip(z, x))
+        if (key, q) in seen:
+            bad.append("string listed twice: %s (q = %d)" % (letters_str(key), q))
+        seen.add((key, q))
+        wt = complex(w.weight)
+        if not (np.isfinite(wt.real) and np.isfinite(wt.imag)):
+            bad.append("non-finite weight %r" % wt)
+            continue
+        lop_add_into(out, {key: gmul(gfrac(wt), IPOW[(-q) % 4])})
+    return out, bad
+
+
+def selftest_letter_convention(W, rng):
+    """PauliString(z, x, q).as_matrix() = (-i)^q kron(letters) with (z,x) = 00 I, 01 X, 11 Y, 10 Z (site 0 leftmost)"""
+    mats = {0: I2, 1: X2, 2: Y2, 3: Z2}
+    ok = True
+    for _ in range(8):
+        L = 3
+        z = [rng.randint(0, 1) for _ in range(L)]
+        x = [rng.randint(0, 1) for _ in range(L)]
+        q = rng.randint(0, 3)
+        M = dense(W.qib.operator.PauliString(z, x, q).as_matrix())
+        G = kron_all([mats[LETTER_OF_ZX[(a, b)]] for a, b in zip(z, x)])
+        ok = ok and np.array_equal(M, [1, -1j, -1, 1j][q] * G)
+    return ok
+
+
+def long_terms(inp):
+    """coefficient arrays of a sparse description {"L", "terms": [{"pat", "nz": [[idx..., re, im], ...], "real"}]}"""
+    L = inp["L"]
+    terms = []
+    for t in inp["terms"]:
+        k = len(t["pat"])
+        c = np.zeros((L,) * k, dtype=float if t.get("real") else complex)
+        for e in t["nz"]:
+            idx, v = tuple(int(a) for a in e[:k]), complex(e[k], e[k + 1])
+            c[idx] = v.real if t.get("real") else v
+        terms.append((t["pat"], c))
+    return L, terms
+
+
+def long_reference(inp, lad):
+    """sum over terms and non-zero entries of coeff * ordered letterwise product of lad(site, create)"""
+    L = inp["L"]
+    ref = {}
+    for t in inp["terms"]:
+        k = len(t["pat"])
+        acc = {}
+        for e in t["nz"]:
+            v = complex(e[k], e[k + 1])
+            if t.get("real"):
+                v = complex(v.real, 0.0)
+            acc[tuple(int(a) for a in e[:k])] = v          # a later entry for the same index overwrites, as in the array
+        for idx, v in acc.items():
+            if v == 0:
+                continue
+            P = {tuple([0] * L): (F1, F0)}
+            for kind, j in zip(t["pat"], idx):
+                P = lop_mul(P, lad(j, bool(kind)))
+            lop_add_into(ref, P, gfrac(v))
+    return lop_clean(ref)
+
+
+def long_compare(ctx, sig_prefix, inp, got, ref, what):
+    """got (letters of the encoder's result) against the exact reference: every string of the reference above the
+    pruning threshold present with its weight, nothing else present (but a single negligible dimension marker)"""
+    scale = max([1.0] + [abs(float(v[0])) + abs(float(v[1])) for v in ref.values()])
+    tol = Fraction(1e-13) * Fraction(scale)
+    for key in sorted(set(got) | set(ref)):
+        g = got.get(key)
+        r = ref.get(key, (F0, F0))
+        if g is None:
+            if r[0] * r[0] + r[1] * r[1] > (PRUNE_TOL + tol) ** 2:
+                ctx.fail(sig_prefix + ":string-of-the-exact-expansion-missing", inp,
+                         "%s contains %s with coefficient %s" % (what, letters_str(key), gstr(r)), "absent")
+                return False
+        elif max(abs(g[0] - r[0]), abs(g[1] - r[1])) > tol:
+            if not (r[0] or r[1]) and len(got) == 1 and g[0] * g[0] + g[1] * g[1] <= PRUNE_TOL ** 2:
+                continue        # the zero-weight string that keeps the dimension of an all-cancelling operator
+            ctx.fail(sig_prefix + ":string-weight-differs-from-letterwise-expansion", inp,
+                     "%s: coefficient of %s = %s" % (what, letters_str(key), gstr(r)), gstr(g))
+            return False
+    return True
+
+
+_long_lad_cache = {}
+
+
+def long_enc_ladder(W, L, parity):
+    """letters of the encoder's own single ladder operators (public API), cached per (L, encoder)"""
+    f = encoder_of(W, parity)
+
+    def lad(i, create):
+        key = (id(W), parity, L, i, create)
+        if key not in _long_lad_cache:
+            e = np.zeros(L)
+            e[i] = 1.0
+            _long_lad_cache[key] = enc_letters(f(W.op(L, [([1 if create else 0], e)])), L)[0]
+        return _long_lad_cache[key]
+    return lad
+
+
+def oracle_long(ctx, W, inp):
+    """one sparse operator on a long lattice, string by string"""
+    parity = bool(inp["parity"])
+    name = ("parity" if parity else "jw") + ":long-lattice"
+    L, terms = long_terms(inp)
+    enc = encoder_of(W, parity)(W.op(L, terms))
+    got, bad = enc_letters(enc, L)
+    for b in bad:
+        ctx.fail(name + ":malformed-result", inp, "each Pauli string once, on %d sites, finite weight" % L, b)
+        return enc
+    if len(enc.pstrings) > 1 and any(abs(complex(w.weight)) <= 1e-14 for w in enc.pstrings):
+        ctx.fail(name + ":negligible-string-not-pruned", inp)
+    ok = long_compare(ctx, name, inp, got, long_reference(inp, lambda j, c: ref_ladder_letters(L, j, c, parity)),
+                      "the letterwise expansion with " + ("a_i = (Z_{i-1} X_i + iY_i)/2 X_{>i}" if parity else "a_i = (X_i + iY_i)/2 Z_{>i}"))
+    nsites = len({int(a) for t in inp["terms"] for e in t["nz"] for a in e[:len(t["pat"])]})
+    if ok and parity and (nsites <= 8 or ctx.thorough):
+        # the statement of the property, on the encoder's OWN ladder operators (one encoder call per site and kind:
+        # in the quick tier only for operators touching few sites; the ladder oracle compares those with the reference)
+        long_compare(ctx, name + ":homomorphism", inp, got, long_reference(inp, long_enc_ladder(W, L, True)),
+                     "sum coeff * ordered product of the encoded ladder operators")
+    return enc
+
+
+def oracle_long_ladders(ctx, W, L, sites, parity):
+    """encoded single ladder operators at the given sites of a long lattice: letters, adjoint, CAR, vacuum, number"""
+    name = ("parity" if parity else "jw") + "-lad:long-lattice"
+    inp = {"kind": "longlad", "parity": parity, "L": L, "sites": list(sites)}
+    f = encoder_of(W, parity)
+    ident = {tuple([0] * L): (F1, F0)}
+    A, C = {}, {}
+    for i in sites:
+        for create, store in ((0, A), (1, C)):
+            e = np.zeros(L)
+            e[i] = 1.0
+            got, bad = enc_letters(f(W.op(L, [([create], e)])), L)
+            if bad:
+                ctx.fail(name + ":malformed-result", dict(inp, i=i, create=create), "two well-formed strings", bad[0])
+                return
+            store[i] = got
+            if got != ref_ladder_letters(L, i, create, parity):
+                ctx.fail(name + ":ladder-operator-strings-differ", dict(inp, i=i, create=create),
+                         "; ".join("%s: %s" % (letters_str(k), gstr(v)) for k, v in sorted(ref_ladder_letters(L, i, create, parity).items()))[:300],
+                         "; ".join("%s: %s" % (letters_str(k), gstr(v)) for k, v in sorted(got.items()))[:300])
+        if C[i] != lop_adjoint(A[i]):
+            ctx.fail(name + ":create-is-not-the-adjoint-of-annihil", dict(inp, i=i), "same strings, conjugated weights", "differ")
+        if lop_on_vacuum(A[i]):
+            ctx.fail(name + ":annihilator-does-not-kill-vacuum", dict(inp, i=i), "A_i |0...0> = 0", "non-zero amplitudes")
+        if lop_clean(lop_mul(C[i], A[i])) != ref_number_letters(L, i, parity):
+            ctx.fail(name + ":occupation-number-of-the-ladder-product-wrong", dict(inp, i=i),
+                     "A_i^dagger A_i = (1 - Z_{i-1} Z_i)/2" if parity else "A_i^dagger A_i = (1 - Z_i)/2", "differs")
+    for i in sites:
+        for j in sites:
+            ac = lop_clean(lop_add_into(lop_mul(A[i], C[j]), lop_mul(C[j], A[i])))
+            if ac != (ident if i == j else {}):
+                ctx.fail(name + ":CAR-violated", dict(inp, i=i, j=j, rel="{a_i, a_j^dagger} = delta_ij"), "delta_ij", "differs")
+            if i <= j and lop_clean(lop_add_into(lop_mul(A[i], A[j]), lop_mul(A[j], A[i]))):
+                ctx.fail(name + ":CAR-violated", dict(inp, i=i, j=j, rel="{a_i, a_j} = 0"), "0", "non-zero")
+
+
+def long_sites(rng, L):
+    s = {0, 1, L - 1, L - 2} | {v for v in (31, 32, 52, 53, 62, 63, 64, 65, 66) if v < L}
+    while len(s) < 12:
+        s.add(rng.randrange(L))
+    return sorted(s)
+
+
+def long_lattice_family(rng, thorough, parity):
+    """sparse operators on long lattices (lists of JSON-able descriptions)"""
+    dy = [1, -1, 0.5, -2, 1j, 0.5 - 0.5j, 0.25 + 1j, 3, -1.5j, -0.75 + 0.5j]
+
+    def cf():
+        v = complex(rng.choice(dy))
+        return [v.real, v.imag]
+
+    out = []
+    for L in LONG_SIZES:
+        S = long_sites(rng, L)
+        hi = [s for s in S if s >= min(L - 3, 60)] or S[-3:]
+        pairs = [(L - 1, L - 2), (L - 2, L - 1), (L - 1, 0), (0, L - 1), (hi[0], hi[-1])]
+        pairs += [(rng.choice(hi), rng.choice(S)) for _ in range(4 if thorough else 2)]
+        pairs += [(a, a + 1) for a in (62, 63, 64, 65) if a + 1 < L]
+
+        def mk(tag, terms):
+            out.append({"kind": "long", "parity": parity, "L": L, "tag": tag, "terms": terms})
+        # occupation numbers (integer, real and complex coefficient arrays)
+        for i in (S if thorough else hi + S[:2]):
+            mk("number", [{"pat": [1, 0], "nz": [[i, i, 1.0, 0.0]], "real": bool(i % 2)}])
+        # site-dependent chemical potential over ALL sites (distinct dyadic weights)
+        mk("number-sum", [{"pat": [1, 0], "nz": [[i, i, 1.0 + i / 128.0, 0.0] for i in range(L)], "real": True}])
+        # hopping / pairing between (high) sites, one direction and Hermitian
+        for i, j in pairs:
+            c = cf()
+            mk("hop", [{"pat": [1, 0], "nz": [[i, j] + c]}])
+            if i != j:
+                mk("hop+hc", [{"pat": [1, 0], "nz": [[i, j] + c, [j, i, c[0], -c[1]]]}])
+                mk("pair", [{"pat": rng.choice([[0, 0], [1, 1], [0, 1]]), "nz": [[i, j] + cf(), [j, i] + cf()]}])
+        # superpositions of ladder operators: all sites, and a sparse support reaching the last sites
+        mk("ladder-superposition", [{"pat": [rng.choice([0, 1])], "nz": [[i] + cf() for i in range(L)]}])
+        mk("ladder-superposition-sparse", [{"pat": [1], "nz": [[i] + cf() for i in hi]}, {"pat": [0], "nz": [[i] + cf() for i in hi[-2:]]}])
+        # several terms, two of them with the same pattern, cancelling strings among them
+        i, j = hi[-1], hi[0]
+        mk("multi-term", [{"pat": [1, 0], "nz": [[i, i, 1.0, 0.0], [j, j, 0.5, 0.0]], "real": True},
+                          {"pat": [1, 0], "nz": [[i, j] + cf(), [i, i, -1.0, 0.0]]},
+                          {"pat": [0, 1], "nz": [[j, j, 0.5, 0.0], [j, i] + cf()]},
+                          {"pat": [], "nz": [cf()]}])
+        # a nearest-neighbour chain with site-dependent potential (the usual use of the encoders)
+        if L <= 70 or thorough:
+            nz = [[i, i, (i % 8 + 1) / 8.0, 0.0] for i in range(L)]
+            for i in range(L - 1):
+                nz += [[i, i + 1, -1.0 - (i % 4) / 4.0, 0.0], [i + 1, i, -1.0 - (i % 4) / 4.0, 0.0]]
+            mk("chain", [{"pat": [1, 0], "nz": nz, "real": True}])
+        # three operators (the coefficient array has L^3 entries: only on the shorter of the long lattices)
+        if L <= 70 and (thorough or L in (65, 70)):
+            i, j, k = hi[-1], hi[0], rng.choice(S)
+            mk("three", [{"pat": rng.choice([[1, 0, 0], [1, 1, 0], [0, 1, 0]]), "nz": [[i, j, k] + cf(), [k, i, j] + cf()]}])
+    return out
+
+
+def long_lattice_run(ctx, W, parity):
+    name = "parity" if parity else "jw"
+    rng = ctx.rng
+    if not selftest_letter_convention(W, rng):
+        ctx.fail(name + ":pauli-letter-convention-changed", {"kind": "selftest-letters"}, "PauliString.as_matrix = (-i)^q kron(letters)", "differs")
+        return
+    for L in LONG_SIZES:
+        sites = long_sites(rng, L)
+        if not ctx.thorough:
+            sites = [s for s in sites if s in (0, 1, 31, 32, 62, 63, 64, 65, 66, L - 2, L - 1)]
+        ctx.count("long_ladders_L=%d" % L)
+        try:
+            oracle_long_ladders(ctx, W, L, sites, parity)
+        except Exception as ex:
+            ctx.fail(name + "-lad:long-lattice:exception", {"kind": "longlad", "parity": parity, "L": L, "sites": sites}, "encoded ladder operators", repr(ex))
+    for inp in long_lattice_family(rng, ctx.thorough, parity):
+        ctx.count("long_L=%d" % inp["L"])
+        ctx.count("long_" + inp["tag"])
+        try:
+            enc = oracle_long(ctx, W, inp)
+            ctx.count("long_strings<=%d" % (4 if len(enc.pstrings) <= 4 else 16 if len(enc.pstrings) <= 16 else 9999))
+        except Exception as ex:
+            ctx.fail(name + ":long-lattice:exception", inp, "encoded operator", repr(ex))
+        if inp["tag"] in ("number", "hop+hc", "multi-term"):
+            ctx.sample({k: inp[k] for k in ("kind", "parity", "L", "tag")})
+
+
 def encoder_run(ctx, parity):
     import fermi as gen_fermi
     W = World()
@@ -512,6 +881,17 @@ def encoder_run(ctx, parity):
             ctx.fail(name + ":exception", {"kind": "enchist", "parity": parity, "a": desc_terms(L, ta), "b": desc_terms(L, tb)},
                      "encode history", repr(ex))
 
+    # ------------------------------------------------------------ long lattices, string level
+    ctx.rules.append("LONG lattices L in %s (beyond every machine-integer width used for bit masks: 32, 53, 63, 64): sparse operators - "
+                     "single ladder operators at the first/last sites and around sites 31/32, 52/53, 62..66, occupation numbers, "
+                     "site-dependent chemical potential over all sites, hopping/pairing between high sites, superpositions of ladder "
+                     "operators over all sites, multi-term operators with cancelling strings, nearest-neighbour chains, three-operator "
+                     "terms (L <= 70) - checked at the level of the Pauli STRINGS against an independent numpy-free LETTERWISE "
+                     "construction (single-site Pauli table, exact Gaussian rationals); encoded ladder operators: strings, adjoint, CAR, "
+                     "vacuum, occupation number; parity: result = sum coeff * ordered letterwise product of the encoder's own ladder "
+                     "operators. Not reachable there: terms with >= 4 operators (the coefficient array alone has L^4 entries)" % (LONG_SIZES,))
+    long_lattice_run(ctx, W, parity)
+
     # ------------------------------------------------------------ float sweep (oracle only): rounding and pruning
     nfl = 300 if ctx.thorough else 60
     for _ in range(nfl):
@@ -568,6 +948,14 @@ def encoder_replay(ctx, data):
     elif inp.get("kind") == "selftest":
         if not selftest_pauli_convention(W, 3, ctx.rng):
             ctx.fail(sig, inp)
+    elif inp.get("kind") == "selftest-letters":
+        if not selftest_letter_convention(W, ctx.rng):
+            ctx.fail(sig, inp)
+    elif inp.get("kind") == "long":
+        oracle_long(ctx, W, inp)
+    elif inp.get("kind") == "longlad":
+        sites = [inp[k] for k in ("i", "j") if k in inp] or inp["sites"]
+        oracle_long_ladders(ctx, W, inp["L"], sorted(set(sites)), parity)
     if len(ctx.failing) > before:
         ctx.failing[:] = ctx.failing[:before]
         ctx.fail(sig, inp, data.get("expected"), "still fails")
